@@ -209,6 +209,13 @@ def step (s : St) (line : String) : St × String :=
   | ["select", strat] =>
     let r := s.f.select (strategyOf strat) 0 0
     (s, s!"sel {r.1} {r.2.1} {floatTok r.2.2}")
+  | ["ssmo", strat] =>
+    -- one solver-style step: the model of the selection criterion chooses the working set
+    if s.f.active == 0 then out s "skip " else
+    let r := s.f.select (strategyOf strat) 0 0
+    if !(r.2.2 > 0.0) then out s "skip " else
+    let (i, j) := (r.1, r.2.1)
+    out { s with f := compact 0.0 (s.f.updateSMO i j), r := onRat s (·.updateSMO i j) } s!"smo {i} {j} "
   | ["kkt"] => (s, s!"kkt {floatTok s.f.checkKKT}")
   | ["solve", strat, e, maxit] =>
     let (s', evs, acc, it) := solveLoop (strategyOf strat) (tokFloat e) (tokRat e) maxit.toNat! s 0 0 #[]
